@@ -609,6 +609,9 @@ class Evaluator:
                     break
                 back = dict(caller_env)
                 back.update({k: v for k, v in st2.env.items() if k.startswith("self.")})
+                # the helper's final locals stay visible to rules that read the path environment (loop-carried values), under names
+                # that cannot clash with the caller's
+                back.update({"%s::%s" % (g.name, k): v for k, v in st2.env.items() if not k.startswith("self.") and "::" not in k})
                 st2.env = back
                 self.fn, self.module, self.inline_depth = saved
                 self.emit(st2, "inline-exit", (g.qual,), call)
